@@ -113,9 +113,9 @@ theorem genVersion_ok (vr : Version) (mx : Int) (cv : CrdVersion) (h : genVersio
 /-- every CRD version is the decorated derivation of the XRD version at the same position -/
 theorem genVersions_ok (vs : List Version) (mx : Int) (cols : List String) (mach : List (String × Schema))
     (cvs : List CrdVersion) (h : genVersions vs mx cols mach = .ok cvs) :
-    List.Forall₂ (fun vr cv => ∃ s, vr.schema = .ok s ∧ cv = decorate (mkVersion vr s mx) cols mach) vs cvs := by
+    Zip (fun vr cv => ∃ s, vr.schema = .ok s ∧ cv = decorate (mkVersion vr s mx) cols mach) vs cvs := by
   induction vs generalizing cvs with
-  | nil => simp only [genVersions] at h; cases h; exact List.Forall₂.nil
+  | nil => simp only [genVersions] at h; cases h; exact Zip.nil
   | cons vr rest ih =>
     simp only [genVersions] at h
     split at h
@@ -126,7 +126,7 @@ theorem genVersions_ok (vs : List Version) (mx : Int) (cols : List String) (mach
       · rename_i cvs' hrest
         cases h
         obtain ⟨s, hs, rfl⟩ := genVersion_ok vr mx cv hcv
-        exact List.Forall₂.cons ⟨s, hs, rfl⟩ (ih cvs' hrest)
+        exact Zip.cons ⟨s, hs, rfl⟩ (ih cvs' hrest)
 
 /-- a version whose schema is missing or does not parse makes the whole derivation fail -/
 theorem genVersions_error_of_bad (vs : List Version) (mx : Int) (cols : List String) (mach : List (String × Schema))
@@ -147,7 +147,7 @@ theorem genVersions_error_of_bad (vs : List Version) (mx : Int) (cols : List Str
       obtain ⟨e, he⟩ := ih this
       simp [he]
 
-theorem forall2_mem_right {R : α → β → Prop} {l1 : List α} {l2 : List β} (h : List.Forall₂ R l1 l2) :
+theorem forall2_mem_right {R : α → β → Prop} {l1 : List α} {l2 : List β} (h : Zip R l1 l2) :
     ∀ b ∈ l2, ∃ a ∈ l1, R a b := by
   induction h with
   | nil => intro b hb; cases hb
@@ -159,7 +159,7 @@ theorem forall2_mem_right {R : α → β → Prop} {l1 : List α} {l2 : List β}
       exact ⟨a, List.mem_cons_of_mem _ ha, hab⟩
 
 theorem forall2_filter_length {f : α → Bool} {g : β → Bool} {l1 : List α} {l2 : List β}
-    (h : List.Forall₂ (fun a b => g b = f a) l1 l2) : (l2.filter g).length = (l1.filter f).length := by
+    (h : Zip (fun a b => g b = f a) l1 l2) : (l2.filter g).length = (l1.filter f).length := by
   induction h with
   | nil => rfl
   | cons hr _ ih =>
@@ -272,6 +272,23 @@ theorem forClaim_ok (xrd : Xrd) (crd : Crd) (h : forClaim xrd = .ok crd) :
     split at h
     · cases h
     · rename_i vs hvs; cases h; exact ⟨c, vs, hc, hvs, rfl⟩
+
+/-- both derivations: every CRD version is the decorated derivation of the XRD version at the same position -/
+theorem derive_versions (w : Which) (xrd : Xrd) (crd : Crd) (h : derive w xrd = .ok crd) :
+    Zip (fun vr cv => ∃ s, vr.schema = .ok s ∧
+          cv = decorate (mkVersion vr s (maxNameLengthOf w)) (columnsOf w) (machineryOf w xrd)) xrd.versions crd.versions := by
+  cases w with
+  | xr =>
+    obtain ⟨vs, hvs, rfl⟩ := forXR_ok xrd crd h
+    exact genVersions_ok _ _ _ _ _ hvs
+  | claim =>
+    obtain ⟨c, vs, _, hvs, rfl⟩ := forClaim_ok xrd crd h
+    exact genVersions_ok _ _ _ _ _ hvs
+
+theorem zip_imp {R S : α → β → Prop} {l1 : List α} {l2 : List β} (h : Zip R l1 l2) (f : ∀ a b, R a b → S a b) : Zip S l1 l2 := by
+  induction h with
+  | nil => exact Zip.nil
+  | cons hr _ ih => exact Zip.cons (f _ _ hr) ih
 
 /-- the claim names that pass validateClaimNames are the XRD's claim names, and none of the four
 corresponding name fields collides -/
